@@ -146,6 +146,7 @@ func (e *c10Env) execInsert(op string, kvts []c10KVT) {
 		// tbtree publishes the depth of the tree after every bulk insert: compared with the B+tree model
 		d := c10Depth(e.dir)
 		e.maxDepth = max(e.maxDepth, d)
+		e.curDepth = d
 		implAns = fmt.Sprintf("ok %d", d)
 	}
 	e.corr(op, implAns)
@@ -161,6 +162,7 @@ func (e *c10Env) execInsert(op string, kvts []c10KVT) {
 			e.tainted = true
 			return
 		}
+		e.noteInsert(e.ref, resolved)
 		e.ref = nref
 		e.remember()
 		if got := e.t.Ts(); got != e.ref.Ts {
@@ -192,6 +194,7 @@ func (e *c10Env) execInsert(op string, kvts []c10KVT) {
 	if m, ok := e.past[d]; ok {
 		r.Count("ins.failed.rolled-back-to-earlier-state(acknowledged inserts lost)")
 		e.ref = m.clone()
+		e.clean, e.armed = true, false // the root is the last flushed root again
 		return
 	}
 	if d == "ts=0" && len(e.atOpen.Es) > 0 {
@@ -219,6 +222,7 @@ func (e *c10Env) execIncTs(op string, ts uint64) {
 		e.ref = e.ref.clone()
 		e.ref.Ts = ts
 		e.remember()
+		e.noteIncTs()
 	}
 	if got := e.t.Ts(); got != e.ref.Ts {
 		e.fail("C10:tbtree.IncreaseTs:ts-differs-from-map", fmt.Sprintf("Ts()=%d, reference %d", got, e.ref.Ts))
@@ -230,6 +234,9 @@ func (e *c10Env) execIncTs(op string, ts uint64) {
 // in range it followed prevOff=0 into the block at offset 0 of the history log and returned another key's version
 // (counter hCount-skipped, possibly 0 or wrapped).
 const c10OverrunSig = "C10:tbtree.lastUpdateBetween:history-chain-overrun-returns-foreign-version"
+
+// Known finding: Ts() is not preserved by close/reopen after a rollback to the loaded root (see DESIGN "C10 — as built").
+const c10StaleTsSig = "C10:reopen:ts-restored-from-stale-timestamp-file-after-rollback"
 
 func (m *c10Map) hasVersion(k, v []byte, ts uint64) bool {
 	i, ok := m.idx(k)
@@ -560,6 +567,9 @@ func (e *c10Env) execSnap(op string, name int, ts uint64) *c10Snap {
 	} else {
 		e.r.Count("snap.current")
 	}
+	if m.Ts == cur {
+		e.clean = true // the root is on disk (it was, or the snapshot flushed it)
+	}
 	sn := &c10Snap{name: name, s: s, ref: m, dump: d, reqTs: ts}
 	e.snaps = append(e.snaps, sn)
 	e.r.Eval(fmt.Sprintf("snap.keys%s.stale%v", sizeBucket(len(m.Es)), m.Ts < cur), len(m.Es) > 0)
@@ -625,6 +635,9 @@ func (e *c10Env) execFlush(op string, f []string) {
 	e.corr(op, c10Err(err))
 	e.r.Count(fmt.Sprintf("flush.pct%s.synced%s.%s", f[3], f[4], c10Err(err)))
 	e.r.Eval("flush."+f[3]+"."+c10Err(err), err == nil)
+	if err == nil {
+		e.clean = true
+	}
 	e.verifyLiveSample("C10:flush:content-changed", "after-flush")
 }
 
@@ -701,12 +714,25 @@ func (e *c10Env) execReopen(op string) error {
 	e.corr(op, fmt.Sprintf("ok %d", e.t.Ts()))
 	e.r.OracleChecks++
 	d := e.liveDump()
-	if d != want.dump() {
+	if stale := (&c10Map{Es: want.Es, Ts: e.atOpen.Ts}); d != want.dump() && best == nil && e.atOpen.Ts > want.Ts && d == stale.dump() {
+		// Same keys and versions, but Ts() is the one the tree had right after the PREVIOUS Open: a rejected insert
+		// rolled the tree back to the loaded root (ts = content ts, below the TIMESTAMP-file value applied at that
+		// Open); Close does not rewrite the TIMESTAMP file for an un-mutated root, so the old value is applied again.
+		desc := fmt.Sprintf("Ts() was %d at Close (after a rejected insert rolled the tree back to the loaded root) and is %d after reopen: the TIMESTAMP file written by the earlier Close is applied again; content unchanged", want.Ts, e.atOpen.Ts)
+		e.r.Fail(c10StaleTsSig, desc, e.replay(desc)) // not e.fail: the case goes on with the observed ts
+		e.r.Count("reopen.ts-restored-from-stale-timestamp-file")
+		want = stale
+	} else if d != want.dump() {
 		e.fail(sig, fmt.Sprintf("after close/reopen the tree does not equal the %s: got %s want %s", what, trunc200(d), trunc200(want.dump())))
 		e.tainted = true
 	}
 	e.ref = want.clone()
 	e.atOpen = e.ref.clone()
+	e.clean, e.armed = want.contentTs() == want.Ts, false // a TIMESTAMP file ahead of the stored root: Open applies setTs to the loaded root
+	if !e.clean {
+		e.r.Count("cow.reopen.ts-file-ahead-of-root(setTs at Open)." + c10DepthTag(e.curDepth))
+		e.armed = true
+	}
 	e.past = map[string]*c10Map{}
 	e.remember()
 	// The root as it is stored on disk is lastSnapRoot after Open: a rejected insert rolls back to it and a
@@ -752,6 +778,9 @@ func (e *c10Env) exec(op string) error {
 	case f[0] == "sync":
 		err := e.t.Sync()
 		e.corr(op, c10Err(err))
+		if err == nil {
+			e.clean = true
+		}
 		e.r.Count("sync")
 		e.verifyLiveSample("C10:flush:content-changed", "after-sync")
 	case f[0] == "compact":
@@ -1236,6 +1265,12 @@ func c10Case(r *hx.Result, rng *hx.Rng, thorough bool, nops int) (err error) {
 			}
 		}
 	}
+	return e.endOfCase()
+}
+
+// endOfCase: every open snapshot re-read, then restart and compare everything
+func (e *c10Env) endOfCase() error {
+	r := e.r
 	r.Extra["max_depth"] = max(asInt(r.Extra["max_depth"]), e.maxDepth)
 	r.Extra["max_keys"] = max(asInt(r.Extra["max_keys"]), len(e.ref.Es))
 	r.Count(fmt.Sprintf("depth.%d", e.maxDepth))
@@ -1459,6 +1494,7 @@ func runC10(r *hx.Result, rng *hx.Rng, thorough bool, replay string) error {
 	rng = rng.Fork() // hx seeds consecutive VERIF_SEEDs with overlapping splitmix streams; decorrelate
 	c10ReopenProbe(r, rng.Fork())
 	c10OverrunProbe(r, rng.Fork())
+	c10StaleTsProbe(r, hx.NewRng(1))
 	c10MultiappProbe(r, rng.Fork(), map[bool]int{false: 60, true: 400}[thorough])
 	if err := r.Flush(); err != nil {
 		return err
@@ -1491,7 +1527,15 @@ func runC10(r *hx.Result, rng *hx.Rng, thorough bool, replay string) error {
 		}
 	}
 	r.Extra["cases"] = cases
+	t0 := time.Now()
+	if err := c10CowCases(r, rng.Fork(), thorough); err != nil {
+		return err
+	}
+	if os.Getenv("VERIF_C10_TIMES") != "" {
+		fmt.Fprintf(os.Stderr, "cow cases: %.1fs\n", time.Since(t0).Seconds())
+	}
 	r.Notes = append(r.Notes,
+		"copy-on-write cases (c10_cow.go): small trees (1..8 keys with the default and the minimum node size = root leaf / inner root over a few leaves; 9..40 keys over tiny nodes), op mix flush / snapshot kept open / IncreaseTs / rejected insert / reopen with the ts file ahead / updates of existing keys one by one, EVERY open snapshot fully re-read after EVERY mutating op; counters cow.* give the ingredient distribution of all cases",
 		"RenewSnapRootAfter=0 (wall-clock snapshot renewal not exercised); Snapshot.Set, SyncSnapshot and HistoryReader not exercised; Reader.Reset only on non-history readers",
 		"NodesLogMaxOpenedFiles / HistoryLogMaxOpenedFiles ∈ {1,2,4000}: chunk files are evicted and re-opened under concurrent readers (repaired finding spurious-cache-key-not-found-from-multiapp; a dedicated probe keeps hammering it)",
 		"a rejected BulkInsert rolling the tree back to the last flushed root — after Open: the loaded root — is modelled (DESIGN 9) and counted under ins.failed.rolled-back-…; rolling back to an EMPTY tree after Open (repaired finding) is reported under its old signature")
